@@ -1,12 +1,23 @@
 //! C18 - vars() reports the variables in scope at the row just yielded.
+//!
+//! As built (DESIGN 8.4b): the oracle is *self-consistent* - it needs no reference values, so
+//! it cannot be disturbed by changes that only alter what expressions evaluate to or which rows
+//! run. Every row carries a tag (which source row is this?) and two probe inputs `(v)` for
+//! variables v that are definitely in scope there; `vars()` must (1) contain every variable that
+//! is definitely in scope at that source row, (2) contain no name that cannot be in scope there
+//! (variables of loops that have ended, device outputs, virtual signals), and (3) report for
+//! each probed variable exactly the value the crate itself just evaluated `(v)` to - the
+//! innermost binding.
+
+use std::collections::{BTreeMap, BTreeSet};
 
 use crate::choice::Ch;
 use crate::device::*;
 use crate::engine::*;
 use crate::gen::*;
+use crate::model::*;
 use crate::props::common::*;
 use crate::real::*;
-use crate::ri;
 
 pub struct C18;
 
@@ -21,12 +32,127 @@ fn vars_cfg() -> Cfg {
     c
 }
 
+#[derive(Clone, Debug, Default)]
+struct RowScope {
+    /// definitely bound when the row is evaluated (on every execution)
+    definite: BTreeSet<String>,
+    /// possibly bound: everything a `let` binds anywhere at the level of an enclosing frame
+    /// (while bodies included) plus the counters of the enclosing loops
+    possible: BTreeSet<String>,
+    probes: Vec<Option<String>>,
+    depth: usize,
+    after_loop: bool,
+    shadowed: bool,
+}
+
+/// names bound by `let` at the level of this frame (while bodies included, loop bodies not)
+fn frame_lets(b: &[Stmt], out: &mut BTreeSet<String>) {
+    for s in b {
+        match s {
+            Stmt::Let(n, _) => {
+                out.insert(n.clone());
+            }
+            Stmt::While(_, inner) => frame_lets(inner, out),
+            _ => {}
+        }
+    }
+}
+
+const NPROBES: usize = 2;
+
+/// Tag every row, add the probe columns, and compute the scope sets of every row.
+fn instrument(b: &mut Built, ch: &mut Ch) -> BTreeMap<usize, RowScope> {
+    b.sigs.insert(0, Sig { name: "TAG".into(), bits: 32, kind: Kind::In(InVal::Val(0)) });
+    b.prog.header.insert(0, "TAG".into());
+    for k in 0..NPROBES {
+        b.sigs.insert(1 + k, Sig { name: format!("PR{k}"), bits: 64, kind: Kind::In(InVal::Val(0)) });
+        b.prog.header.insert(1 + k, format!("PR{k}"));
+    }
+    let mut scopes = BTreeMap::new();
+    struct Ctx<'a, 'b> {
+        ch: &'a mut Ch<'b>,
+        scopes: &'a mut BTreeMap<usize, RowScope>,
+    }
+    fn row(id: usize, es: &mut Vec<Entry>, definite: &BTreeSet<String>, possible: &BTreeSet<String>, outer: &[BTreeSet<String>], depth: usize, after_loop: bool, cx: &mut Ctx) {
+        let names: Vec<&String> = definite.iter().collect();
+        let mut probes = vec![];
+        for k in 0..NPROBES {
+            if names.is_empty() {
+                es.insert(k, Entry::Num(0, Radix::Dec));
+                probes.push(None);
+            } else {
+                let v = names[cx.ch.upto(names.len())].clone();
+                es.insert(k, Entry::Paren(Expr::Var(v.clone())));
+                probes.push(Some(v));
+            }
+        }
+        es.insert(0, Entry::Num(id as u64 + 1, Radix::Dec));
+        // a name bound in two enclosing frames at once
+        let shadowed = definite.iter().any(|n| outer.iter().filter(|f| f.contains(n)).count() >= 2);
+        cx.scopes.insert(id, RowScope { definite: definite.clone(), possible: possible.clone(), probes, depth, after_loop, shadowed });
+    }
+    #[allow(clippy::too_many_arguments)]
+    fn block(bl: &mut [Stmt], definite: &mut BTreeSet<String>, possible: &BTreeSet<String>, frames: &mut Vec<BTreeSet<String>>, depth: usize, cx: &mut Ctx) {
+        let mut after_loop = false;
+        for s in bl {
+            match s {
+                Stmt::Let(n, _) => {
+                    definite.insert(n.clone());
+                    frames.last_mut().unwrap().insert(n.clone());
+                }
+                Stmt::Row(id, es) => row(*id, es, definite, possible, frames, depth, after_loop, cx),
+                Stmt::Repeat(_, id, es) => {
+                    let mut d = definite.clone();
+                    d.insert("n".into());
+                    let mut p = possible.clone();
+                    p.insert("n".into());
+                    frames.push(["n".to_string()].into_iter().collect());
+                    row(*id, es, &d, &p, frames, depth + 1, after_loop, cx);
+                    frames.pop();
+                    after_loop = true;
+                }
+                Stmt::Loop(v, _, inner) => {
+                    let mut d = definite.clone();
+                    d.insert(v.clone());
+                    let mut p = possible.clone();
+                    p.insert(v.clone());
+                    frame_lets(inner, &mut p);
+                    frames.push([v.clone()].into_iter().collect());
+                    block(inner, &mut d, &p, frames, depth + 1, cx);
+                    frames.pop();
+                    after_loop = true;
+                }
+                Stmt::While(_, inner) => {
+                    // no scope of its own; what it binds is not definite afterwards
+                    let mut d = definite.clone();
+                    let saved = frames.last().unwrap().clone();
+                    block(inner, &mut d, possible, frames, depth, cx);
+                    *frames.last_mut().unwrap() = saved;
+                }
+                Stmt::ResetRandom | Stmt::Declare(..) => {}
+            }
+        }
+    }
+    let mut possible = BTreeSet::new();
+    frame_lets(&b.prog.stmts, &mut possible);
+    let mut definite = BTreeSet::new();
+    let mut frames = vec![BTreeSet::new()];
+    // the choice stream borrowed for the walk
+    let data: Vec<u32> = (0..120).map(|_| ch.raw()).collect();
+    let mut ch2 = Ch::new(&data);
+    let mut cx = Ctx { ch: &mut ch2, scopes: &mut scopes };
+    block(&mut b.prog.stmts, &mut definite, &possible, &mut frames, 0, &mut cx);
+    b.cols = col_roles(&b.prog.header, &b.sigs);
+    b.analysis = analyse(&b.prog);
+    scopes
+}
+
 impl Property for C18 {
     fn id(&self) -> &'static str {
         "C18"
     }
     fn rule(&self) -> &'static str {
-        "profile `flow` with shadowing emphasis, 0-2 virtual signals (so the variable swap around virtual evaluation runs) and X/C rows (several items share one evaluation); the caller inspects vars() after every yielded row. Oracle: the reference interpreter's flattened environment at the evaluation of the row's source statement (innermost binding wins; loop frames gone after the loop; no output or virtual names unless a variable of that name is bound). Non-trivial: the environment at some row has a shadowed name, or is inspected after a loop has ended, or after an expansion item other than the first; distinct by source + signals + driver."
+        "profile `flow` with shadowing emphasis, 0-2 virtual signals (so the variable swap around virtual evaluation runs), X/C rows (several items share one evaluation), Z/X device answers in a third of the cases (virtual signals then make rows error items and the caller goes on). Every row statement carries a tag and two 64-bit probe inputs `(v)` for variables v definitely in scope there. The caller inspects vars() after every yielded row. Oracle (self-consistent, no reference values): with D = variables definitely in scope at that source row and P = variables that can be in scope there (lets at the level of an enclosing frame, enclosing counters) by an independent static scope analysis of the generating program: D is a subset of keys(vars()) which is a subset of P (so variables of ended loops, device outputs and virtual signals are absent), and for each probed v, vars()[v] equals the value the crate itself evaluated `(v)` to in that row (the innermost binding). Non-trivial: some inspected row has a shadowed name in scope, or follows an ended loop, or is an expansion item other than the first; distinct by source + signals + driver."
     }
     fn cases(&self, tier: Tier) -> u64 {
         match tier {
@@ -35,36 +161,26 @@ impl Property for C18 {
         }
     }
     fn required_classes(&self) -> Vec<&'static str> {
-        vec!["shadowed-env-at-row", "row-after-loop-end", "expansion-item>0", "declare", "var-named-like-output", "virtual-error-item", "vars-after-error-item"]
+        vec!["shadowed-name-in-scope", "row-after-loop-end", "expansion-item>0", "declare", "var-named-like-output", "vars-after-error-item", "probe-checked", "row-in-loop"]
     }
     fn run(&self, s: &Streams) -> CaseOut {
         let mut out = CaseOut::new();
         let cfg = vars_cfg();
-        let built = gen_case(&mut Ch::new(&s[0]), &cfg);
+        let mut built = gen_case(&mut Ch::new(&s[0]), &cfg);
+        let scopes = instrument(&mut built, &mut Ch::new(&s[1]));
         let text = built_text(&built);
-        let spec = gen_spec(
-            &mut Ch::new(&s[2]),
+        let mut dch = Ch::new(&s[2]);
+        let mut spec = gen_spec(
+            &mut dch,
             &built.sigs,
             &SpecCfg { palette: Palette::Small, zx: 0, free_layout: false, must_supply: built.must_supply(), both_driver_types: true },
         );
-        let mut spec = spec;
-        if Ch::new(&s[1]).chance(1, 3) {
+        if dch.chance(1, 3) {
             spec.zx = 20;
         }
         render_case(&mut out, &text, &built.sigs, Some(&spec));
         let f = feats(&built);
         feat_classes(&mut out, &f);
-        let t = ri::run(&built.prog, &built.sigs, &spec, &ri::RiOpts { continue_after_virtual_error: true, ..Default::default() });
-        fact_classes(&mut out, &t);
-        if matches!(t.end, ri::RiEnd::StepCap) && t.items.is_empty() {
-            out.discard("step-cap-before-first-row");
-            return out;
-        }
-        // the run may contain error items caused by virtual signals (Z/X answers); the caller
-        // goes on and keeps inspecting vars() at the rows that follow. Any other hazard ends
-        // the reference run: the comparison then covers the prefix.
-        let virt_errs = t.items.iter().filter(|i| matches!(i, ri::RiItem::Hazard { after_call: true, .. })).count();
-        out.class_if(virt_errs > 0, "virtual-error-item");
         let Some(tc) = load_wellformed(&mut out, "c18", &text, &built.sigs) else {
             return out;
         };
@@ -72,64 +188,104 @@ impl Property for C18 {
             &tc,
             &built.sigs,
             &spec,
-            &RunOpts { max_next: next_budget(&t), fuel: fuel_for(t.facts.steps), want_vars: true, continue_after_error: true, ..Default::default() },
+            &RunOpts { max_next: 300, want_vars: true, continue_after_error: true, ..Default::default() },
         );
         if let Some(RealItem::Panic(p)) = &real.ctor {
             out.fail(p.key(), format!("constructor panicked: {p}"));
             return out;
         }
-        let mut later_expansion = false;
-        let mut named_like_output = false;
-        for (i, item) in t.items.iter().enumerate() {
-            let ri::RiItem::Row(r) = item else { continue };
-            if t.items[..i].iter().any(|x| matches!(x, ri::RiItem::Hazard { .. })) {
-                out.class("vars-after-error-item");
-            }
-            match real.items.get(i) {
-                // which rows run and what they hold is C01 / C04 / C05's business: once a row
-                // differs from the reference, vars() has nothing to be compared with
-                Some(RealItem::Row(rr)) => {
-                    if row_diff(r, rr, Projection::INPUTS_EXPECTED).is_some() {
-                        out.class("rows-diverged");
-                        break;
-                    }
-                }
-                Some(RealItem::Panic(p)) => {
-                    out.fail(p.key(), format!("item {i} panicked: {p}"));
+        let signal_names: BTreeSet<String> =
+            built.sigs.iter().map(|s| s.name.clone()).chain(built.analysis.virtuals.iter().cloned()).collect();
+        let mut nontrivial = false;
+        let mut prev_tag = None;
+        let mut seen_error = false;
+        let mut definite_trusted = true;
+        for (i, item) in real.items.iter().enumerate() {
+            let row = match item {
+                RealItem::Row(r) => r,
+                RealItem::Panic(p) => {
+                    out.fail(p.key(), format!("item {i} (or vars() after it) panicked: {p}"));
                     return out;
                 }
-                // row count / errors are C01's business: stop comparing here
-                _ => break,
-            }
-            let Some(Some(vars)) = real.vars.get(i) else {
-                break;
+                _ => {
+                    seen_error = true;
+                    prev_tag = None;
+                    // an error item for which no driver call was made is an expression error:
+                    // an assignment (or a whole loop) may have been skipped, so "definitely in
+                    // scope" can no longer be relied on. An error item WITH its driver call is
+                    // a virtual signal's: the program state is intact.
+                    let before = real.log_len_before.get(i).copied().unwrap_or(0);
+                    let after = real.log_len_before.get(i + 1).copied().unwrap_or(before);
+                    if after == before {
+                        definite_trusted = false;
+                    }
+                    continue;
+                }
             };
-            if r.expansion_index > 0 {
-                later_expansion = true;
+            let Some(Some(vars)) = real.vars.get(i) else { continue };
+            let Some(InVal::Val(tag)) = row.inputs.iter().find(|e| e.0 == "TAG").map(|e| e.1) else { continue };
+            let Some(sc) = scopes.get(&((tag - 1) as usize)) else { continue };
+            out.class_if(seen_error, "vars-after-error-item");
+            out.class_if(sc.depth > 0, "row-in-loop");
+            if prev_tag == Some(tag) {
+                out.class("expansion-item>0");
+                nontrivial = true;
             }
-            if r.env.keys().any(|k| built.sigs.iter().any(|s| s.name == *k)) {
-                named_like_output = true;
+            prev_tag = Some(tag);
+            if sc.after_loop {
+                out.class("row-after-loop-end");
+                nontrivial = true;
             }
-            if *vars != r.env {
-                let extra: Vec<_> = vars.iter().filter(|(k, v)| r.env.get(*k) != Some(v)).collect();
-                let missing: Vec<_> = r.env.iter().filter(|(k, v)| vars.get(*k) != Some(v)).collect();
+            if sc.shadowed {
+                out.class("shadowed-name-in-scope");
+                nontrivial = true;
+            }
+            out.class_if(vars.keys().any(|k| signal_names.contains(k)), "var-named-like-output");
+            // (1) everything definitely in scope is reported (unless an expression error made
+            // "definitely" unreliable, see above)
+            if let Some(missing) = sc.definite.iter().filter(|_| definite_trusted).find(|n| !vars.contains_key(*n)) {
                 out.fail(
-                    "c18:vars-mismatch",
+                    "c18:variable-missing",
+                    format!("after item {i} (source row #{}): `{missing}` is in scope there but vars() = {vars:?}", tag - 1),
+                );
+                return out;
+            }
+            // (2) nothing that cannot be in scope is reported
+            if let Some(extra) = vars.keys().find(|n| !sc.possible.contains(*n)) {
+                out.fail(
+                    "c18:name-not-in-scope-reported",
                     format!(
-                        "after item {i} ({}): vars() = {:?}\n should be {:?}\n wrong/extra: {:?} missing/different: {:?}",
-                        fmt_ri_row(r),
-                        vars,
-                        r.env,
-                        extra,
-                        missing
+                        "after item {i} (source row #{}): vars() contains `{extra}`, which is not a variable in scope at that row (in scope can only be {:?}); vars() = {vars:?}",
+                        tag - 1,
+                        sc.possible
                     ),
                 );
                 return out;
             }
+            // (3) probed variables: the value the crate itself evaluated (v) to
+            for (k, p) in sc.probes.iter().enumerate() {
+                let Some(v) = p else { continue };
+                if !definite_trusted {
+                    // (v) may have resolved to a device output of the same name
+                    break;
+                }
+                let sent = row.inputs.iter().find(|e| e.0 == format!("PR{k}")).map(|e| e.1);
+                let Some(InVal::Val(evaluated)) = sent else { continue };
+                out.class("probe-checked");
+                if vars.get(v) != Some(&evaluated) {
+                    out.fail(
+                        "c18:value-differs-from-evaluation",
+                        format!(
+                            "after item {i} (source row #{}): the row's entry ({v}) evaluated to {evaluated}, but vars()[{v}] = {:?} (the innermost binding must win)",
+                            tag - 1,
+                            vars.get(v)
+                        ),
+                    );
+                    return out;
+                }
+            }
         }
-        out.class_if(later_expansion, "expansion-item>0");
-        out.class_if(named_like_output, "var-named-like-output");
-        out.nontrivial = (t.facts.shadowed_env || t.facts.row_after_loop_end || later_expansion) && !t.items.is_empty();
+        out.nontrivial = nontrivial;
         out
     }
 }
